@@ -12,6 +12,14 @@ def build(spec, rng):
         if isinstance(v, (str, bytes)) and len(v) > 1 and rng.random() < 0.5:
             v = v[:1] + v[1:]             # an equal but distinct object
         return v
+    if t == "bigdict":
+        ks = list(range(spec[1]))
+        rng.shuffle(ks)
+        if spec[1] % 2:
+            return {(frozenset({k}) if k % 3 else frozenset({k, "x"})): k for k in ks}
+        # totally ordered float keys and one NaN: where the NaN ends up in sorted() depends on the insertion order
+        nan = float("nan")
+        return {(float(k) if k else nan): k for k in ks}
     kids = list(spec[1:])
     if t in ("set", "frozenset", "dict", "odict"):
         rng.shuffle(kids)                 # insertion order is part of the construction history
